@@ -86,6 +86,19 @@ pub fn hex_short(bytes: &[u8], max: usize) -> String {
     }
 }
 
+/// Clips a long diagnostic string (Debug output of whole files) to `max` characters.
+pub fn clip(s: String, max: usize) -> String {
+    if s.len() <= max {
+        s
+    } else {
+        let mut cut = max;
+        while !s.is_char_boundary(cut) {
+            cut -= 1;
+        }
+        format!("{}... ({} chars)", &s[..cut], s.len())
+    }
+}
+
 // ---------------------------------------------------------------------------------------
 // key=value replay format (ordered, keys may repeat)
 // ---------------------------------------------------------------------------------------
